@@ -333,7 +333,7 @@ func jobMatrix(run *ev.Run, c *collector, m mode, thorough bool, chunk, nchunks 
 			addAx(checkAxioms(c, m, d, MW, what, map[string]any{"warmup": []key{d.keys[w1], d.keys[w2]}}))
 		}
 		if w == from+(to-from)/2 {
-			run.Sample(map[string]any{"mode": m.Name, "warmup": d.labels[w1] + " vs " + d.labels[w2], "then": "all " + fmt.Sprint(n*n) + " ordered pairs, fresh comparer each"})
+			run.Set("sample", map[string]any{"mode": m.Name, "warmup": d.labels[w1] + " vs " + d.labels[w2], "then": "all " + fmt.Sprint(n*n) + " ordered pairs, fresh comparer each"})
 		}
 	}
 	run.Add("warmups", int64(to-from))
@@ -707,7 +707,7 @@ func jobTree(run *ev.Run, c *collector, m mode, thorough bool, chunk, nchunks in
 			}
 		}
 		if si == from {
-			run.Sample(map[string]any{"mode": m.Name, "key_set": func() []string {
+			run.Set("sample", map[string]any{"mode": m.Name, "key_set": func() []string {
 				var l []string
 				for _, s := range S {
 					l = append(l, d.labels[s])
@@ -809,7 +809,18 @@ func main() {
 	if thorough {
 		dl = 40 * time.Minute
 	}
-	run.Parallel(jobs, 0, dl, nil)
+	run.Parallel(jobs, 0, dl, func(job, output string) *ev.Violation {
+		// a comparer that panics on JSON-typed keys is not a total preorder; anything else is a harness failure.
+		if i := strings.Index(output, "panic:"); i >= 0 && !strings.Contains(output, "HARNESS:") {
+			parts := strings.Split(job, ":")
+			msg := output[i:]
+			if len(msg) > 600 {
+				msg = msg[:600]
+			}
+			return &ev.Violation{Sig: "panic|" + parts[2], Detail: fmt.Sprintf("mode %s, job %s: the code under test panicked while comparing JSON-typed keys: %s", parts[2], job, msg), Replay: map[string]any{"job": job}}
+		}
+		return nil
+	})
 	// deterministic choice of the example per Sig: candidate from the lowest job index.
 	pj, _ := run.Coverage["per_job"].(map[string]any)
 	names := make([]string, 0, len(pj))
@@ -817,10 +828,18 @@ func main() {
 		names = append(names, k)
 	}
 	sort.Strings(names)
+	sampled := map[string]bool{}
 	for _, jn := range names {
 		ex, _ := pj[jn].(map[string]any)
 		if ex == nil {
 			continue
+		}
+		if sm, ok := ex["sample"].(map[string]any); ok {
+			k := strings.Split(jn, ":")[1] + fmt.Sprint(sm["mode"])
+			if !sampled[k] && (strings.Contains(jn, "2field") || strings.Contains(jn, ":tree:")) {
+				sampled[k] = true
+				run.Sample(sm)
+			}
 		}
 		if cl, ok := ex["candidates"]; ok {
 			b, _ := json.Marshal(cl)
@@ -847,7 +866,7 @@ func main() {
 		"tree: every k-subset of keys (k=3; thorough 4 for 1-field modes; 2-field modes use the reduced values "+fmt.Sprint(treeVals2Quick)+" / thorough "+fmt.Sprint(treeVals2Thorough)+") x every insertion order on a real store (slot length 2) x every lookup order by another fresh instance. "+
 		"non-trivial = case whose compared keys differ (x != y) / one store built")
 	run.Assumption("JSON numbers are float64 (as encoding/json decodes keys read back from a store); Go-only types (int, time.Time, ...) are outside the JSON key domain of the statement")
-	run.Assumption("default field-wise order: the comparer the real store uses is obtained from a jsondb.NewJsonBtreeMapKey store by reflection (no exported accessor) and brought back to the state of a new instance by zeroing its two cache fields; the bridge pass validates this against fresh OpenJsonBtreeMapKey instances using exported API only")
+	run.Assumption("default field-wise order: the comparer the real store uses is obtained from a jsondb.NewJsonBtreeMapKey store by reflection (no exported accessor) and brought back to the state of a new instance by zeroing the instance's fields (a new instance has them all zero); the bridge pass validates this against fresh OpenJsonBtreeMapKey instances using exported API only")
 	run.Assumption("'two processes' are two JsonDBMapKey instances in separate transactions of one OS process (the comparer state lives in the instance); CEL-expression ordering is not part of this property")
 	run.Finish()
 }
